@@ -67,8 +67,27 @@ def proj_model(r: dict) -> tuple:
     return (fr(r["a"]), fr(r["b"]), fr(r["fa"]), fr(r["fb"]), fr(r["c"]), fr(r["d"]), fr(r["fc"]), bool(r["bis"]))
 
 
-def proj_real(o) -> tuple:
-    return (F(o.a), F(o.b), F(o.fa), F(o.fb), F(o.c), F(o.d), F(o.fc), bool(o.bisection))
+def proj_real(o):
+    """Mechanism state as BrentFn.tla names it; None when the real object no longer carries these attributes (a refactoring):
+    the requirement checks below need only the bracket (a, b, fa, fb) and the guess."""
+    try:
+        return (F(o.a), F(o.b), F(o.fa), F(o.fb), F(o.c), F(o.d), F(o.fc), bool(o.bisection))
+    except AttributeError:
+        return None
+
+
+def state_key(o) -> tuple:
+    """Complete state of the real object, whatever its attributes are called (memoisation key of the exploration)."""
+    import math
+    out = []
+    for k_, v_ in sorted(vars(o).items()):
+        if isinstance(v_, bool) or not isinstance(v_, (int, float)):
+            out.append((k_, repr(v_)))
+        elif math.isfinite(v_):
+            out.append((k_, F(v_)))
+        else:
+            out.append((k_, repr(v_)))
+    return tuple(out)
 
 
 def clone(o):
@@ -89,16 +108,20 @@ def explore_real(ctx: Ctx, cname: str, c) -> tuple[set, int]:
         for fe in ords:
             if fs * fe < 0:
                 o = BrentsRootFinder(start=start, end=end, f_start=fs, f_end=fe, epsilon=eps)
-                k = ("loop", proj_real(o), None)
+                k = ("loop", state_key(o), None)
                 if k not in seen:
                     seen[k] = (o, 0, [("new", fs, fe)])
                     frontier.append(k)
     n_paths_done = 0
+    unprojectable = [False]
     while frontier:
         nxt = []
         for k in frontier:
             o, steps, path = seen[k]
             pc = k[0]
+            pk = proj_real(o)
+            if pk is None:
+                unprojectable[0] = True
             lo, hi = min(o.a, o.b), max(o.a, o.b)
             if pc == "loop":
                 if o.is_converged(tol):
@@ -108,7 +131,7 @@ def explore_real(ctx: Ctx, cname: str, c) -> tuple[set, int]:
                     if not ok:
                         ctx.violation(f"brent:{cname}:returned-not-at-sign-change", "real BrentsRootFinder converged on a bracket without sign change / wider than tol / guess not an end",
                                       {"config": cname, "path": path, "a": o.a, "b": o.b, "fa": o.fa, "fb": o.fb})
-                    trans.add(("loop", k[1], "finish", "done", k[1]))
+                    trans.add(("loop", pk, "finish", "done", pk))
                     continue
                 if steps >= max_steps:
                     ctx.violation(f"brent:{cname}:not-terminating", f"real BrentsRootFinder needs more than {max_steps} evaluations (model bound) on an adversarial ordinate sequence",
@@ -126,10 +149,10 @@ def explore_real(ctx: Ctx, cname: str, c) -> tuple[set, int]:
                 if not (lo < x < hi):
                     ctx.violation(f"brent:{cname}:no-progress", "real BrentsRootFinder queried an end point of its bracket (no progress)",
                                   {"config": cname, "path": path, "x": x, "lo": lo, "hi": hi})
-                if not o2.bisection:
+                if not getattr(o2, "bisection", True):
                     ctx.coverage["interpolation_steps"] = ctx.coverage.get("interpolation_steps", 0) + 1
-                k2 = ("tell", proj_real(o2), F(x))
-                trans.add(("loop", k[1], "ask", "tell", k2[1], F(x)))
+                k2 = ("tell", state_key(o2), F(x))
+                trans.add(("loop", pk, "ask", "tell", proj_real(o2), F(x)))
                 if k2 not in seen:
                     seen[k2] = (o2, steps, path + [("ask", x)])
                     nxt.append(k2)
@@ -145,13 +168,13 @@ def explore_real(ctx: Ctx, cname: str, c) -> tuple[set, int]:
                     if not (lo <= lo2 and hi2 <= hi):
                         ctx.violation(f"brent:{cname}:bracket-grew", "bracket of the real BrentsRootFinder is not nested in the previous one",
                                       {"config": cname, "path": path + [("tell", ordv)]})
-                    k2 = ("loop", proj_real(o2), None)
-                    trans.add(("tell", k[1], ("tell", ordv), "loop", k2[1]))
+                    k2 = ("loop", state_key(o2), None)
+                    trans.add(("tell", pk, ("tell", ordv), "loop", proj_real(o2)))
                     if k2 not in seen:
                         seen[k2] = (o2, steps + 1, path + [("tell", ordv)])
                         nxt.append(k2)
         frontier = nxt
-    return trans, n_paths_done
+    return (None if unprojectable[0] else trans), n_paths_done
 
 
 def model_transitions(out: str) -> set:
@@ -264,6 +287,11 @@ def run(ctx: Ctx) -> None:
         if not mt:
             raise MachineryError("no transitions printed by TLC")
         rt, npaths = explore_real(ctx, cname, c)
+        if rt is None:
+            ctx.model_drift(f"{cname}: the real BrentsRootFinder no longer exposes the mechanism state of BrentFn.tla (a, b, fa, fb, c, d, fc, bisection): "
+                            f"requirement checks ran on {npaths} converged real states, the transition-by-transition comparison was skipped")
+            ctx.coverage.setdefault("binding_A", {})[cname] = {"model_transitions": len(mt), "real_transitions": None}
+            continue
         only_model = mt - rt
         only_real = rt - mt
         ctx.log(f"{cname}: TLC {res['distinct']} states; model transitions {len(mt)}, real transitions {len(rt)}, converged real states {npaths}")
